@@ -102,7 +102,8 @@ def obligations():
             star = [x for k, x in v[4] if k is None]
             pattr = ("attr", SELF, "base_kernel_params")
             want = ("ite", ("cmp", ("Is",), (pattr, fx.C(None))), ("dict", ()), pattr)
-            good = (v[3] == (("var", "X"), inp) and dict((k, x) for k, x in v[4] if k is not None).get("metric") == ("attr", SELF, "base_kernel")
+            am = fx.argmap(v, ("X", "Y", "metric"))
+            good = (am.get("X") == ("var", "X") and am.get("Y") == inp and am.get("metric") == ("attr", SELF, "base_kernel") and "*extra" not in am
                     and len(star) == 1 and fx.strip(star[0]) == want)
         else:
             good = v[2] == "self.base_kernel" and v[3] == (("var", "X"), inp)
